@@ -1,0 +1,33 @@
+//go:build verif
+
+package fsnotify
+
+// Read-only access to unexported identifiers for the verification machinery in
+// /verif. Only compiled with -tags verif; nothing here changes behaviour.
+
+const (
+	VerifUnportableOpen       = xUnportableOpen
+	VerifUnportableRead       = xUnportableRead
+	VerifUnportableCloseWrite = xUnportableCloseWrite
+	VerifUnportableCloseRead  = xUnportableCloseRead
+)
+
+// VerifSetRecurse flips the "only enabled in tests" recursive-watch switch.
+func VerifSetRecurse(on bool) { enableRecurse = on }
+
+func VerifWithOps(op Op) addOpt   { return withOps(op) }
+func VerifWithNoFollow() addOpt   { return withNoFollow() }
+func VerifWithCreate() addOpt     { return withCreate() }
+func VerifDefaultOps() Op         { return defaultOpts.op }
+func VerifDefaultBufferSize() int { return defaultBufferSize }
+
+// VerifRenamedFrom exposes Event.renamedFrom.
+func VerifRenamedFrom(e Event) string { return e.renamedFrom }
+
+// VerifEvent builds an Event including the unexported renamedFrom field.
+func VerifEvent(name string, op Op, renamedFrom string) Event {
+	return Event{Name: name, Op: op, renamedFrom: renamedFrom}
+}
+
+// VerifSupports exposes Watcher.xSupports.
+func VerifSupports(w *Watcher, op Op) bool { return w.xSupports(op) }
